@@ -524,6 +524,34 @@ def run_jwe(ctx):
             elif n == 1:
                 more.append(("cli.run", {"argv": ["jwe", "dec", "-i", parse_out(rr, None).strip(), "-k", "k0.jwk"], "files": {"k0.jwk": hx(js(a["jwk"]))},
                                          "_why": "after fmt -c of a %s single-recipient JWE" % ("general" if "recipients" in t else "flattened")}))
+    # every `jwe fmt` command line used above also goes through the model of the tool (correspondence), together with
+    # more spellings: token inline / file / stdin, JSON and compact, -I detached ciphertext, -O, -o
+    fmt_lines = [(o, a) for o, a in decs if a.get("_fmt")]
+    for (o, a), r in zip(gen_ops, ctx.real(gen_ops)):
+        if r.get("ok"):
+            tok = r["jwe"]
+            ctb = G.b64d(tok["ciphertext"])
+            det = {k: v for k, v in tok.items() if k != "ciphertext"}
+            single = "recipients" not in tok
+            for flabel, iargv, files, stdin in input_forms(js(tok), jwe_compact(tok) if single and "header" not in tok else None, rng):
+                for extra in ([], ["-c"], ["-o", "out.txt"], ["-c", "-O", "ct.bin"], ["-O", "ct.bin"]):
+                    x = {"argv": ["jwe", "fmt"] + iargv + extra, "files": dict(files), "_why": "jwe fmt %s %s" % (flabel, extra)}
+                    if stdin is not None:
+                        x["stdin"] = stdin
+                    fmt_lines.append(("cli.run", x))
+            for flabel, iargv, files, stdin in input_forms(js(det), jwe_compact(det) if single and "header" not in tok else None, rng):
+                for extra in ([], ["-c"]):
+                    x = {"argv": ["jwe", "fmt"] + iargv + ["-I", "ct.bin"] + extra, "files": dict(files, **{"ct.bin": ctb.hex()}), "_why": "jwe fmt detached %s %s" % (flabel, extra)}
+                    if stdin is not None:
+                        x["stdin"] = stdin
+                    fmt_lines.append(("cli.run", x))
+    for bad in ({"ciphertext": 5, "tag": "AA"}, {"ciphertext": "AA"}, {"ciphertext": "AA", "tag": 5}, {"ciphertext": "AA", "tag": "AA", "iv": 5},
+                {"ciphertext": "AA", "tag": "AA", "recipients": 5}, {"ciphertext": "AA", "tag": "AA", "recipients": [5]}, {"ciphertext": "AA", "recipients": [{"tag": "BB"}]},
+                {"ciphertext": "A", "tag": "AA"}, {"ciphertext": "AA", "tag": "AA", "recipients": [{"encrypted_key": 5}]}, {"tag": "AA"}):
+        for extra in ([], ["-c"]):
+            fmt_lines.append(("cli.run", {"argv": ["jwe", "fmt", "-i", js(bad)] + extra, "files": {}, "_why": "malformed input to jwe fmt"}))
+    cmp(ctx, fmt_lines, lambda a, real: None)
+    ctx.count("jwe-fmt-lines", len(fmt_lines))
     for (o, a), r in zip(more, ctx.real([(o, strip(a)) for o, a in more])):
         ctx.evaluations += 1
         if r.get("status") != 0 or r.get("stdout") != hx(pt):
@@ -694,6 +722,15 @@ def run(ctx):
     run_jws_ver(ctx)
     run_jws_sig(ctx)
     run_jwe(ctx)
+    run_pure(ctx)
+
+
+def run_pure(ctx):
+    """the deterministic command lines of the primitive-free subcommands (tools/extract_tables.pure_cli_lines)"""
+    import extract_tables
+    ops = [(o, dict(a, _why="primitive-free subcommand line")) for o, a in extract_tables.pure_cli_lines()]
+    cmp(ctx, ops, lambda a, real: None)
+    ctx.count("pure-lines", len(ops))
 
 
 def replay(ctx, rp):
